@@ -426,3 +426,161 @@ def decode_model_value(v):
     if z3.is_rational_value(v):
         return str(v)
     return str(v)
+
+
+# ---------------------------------------------------------------------------------------------
+# operations on structured strings (used when the library re-parses a string it emitted)
+
+
+def _text_values(p):
+    return possible_values(p)
+
+
+def _surely_nonempty_join(jp):
+    return any(z3.is_true(g) for g, _ in jp.items)
+
+
+def scat_is_empty(s):
+    """True / False when decided by the structure, else None"""
+    for p in _parts(s):
+        if isinstance(p, JoinPiece):
+            if _surely_nonempty_join(p):
+                return False
+        else:
+            pv = _text_values(p)
+            if pv is not None and all(v != "" for v in pv):
+                return False
+    return None
+
+
+def scat_endswith(s, c):
+    parts = _parts(s)
+    last = parts[-1]
+    if isinstance(last, JoinPiece):
+        if not _surely_nonempty_join(last):
+            return None
+        for _, e in last.items:
+            pv = possible_values(e)
+            if pv is None or any(v == "" or v.endswith(c) for v in pv):
+                return None
+        return False
+    pv = _text_values(last)
+    if pv is None or any(v == "" for v in pv):
+        return None
+    r = {v.endswith(c) for v in pv}
+    return r.pop() if len(r) == 1 else None
+
+
+def scat_startswith(s, p):
+    from .sym import FV, fv_apply
+
+    first = _parts(s)[0]
+    if isinstance(first, JoinPiece):
+        return None
+    pv = _text_values(first)
+    if pv is None:
+        return None
+    if all(len(v) >= len(p) for v in pv):
+        return fv_apply(lambda x: x.startswith(p), first) if isinstance(first, FV) else first.startswith(p)
+    if all((len(v) < len(p) and not p.startswith(v)) or (len(v) >= len(p)) for v in pv):
+        return fv_apply(lambda x: x.startswith(p), first) if isinstance(first, FV) else first.startswith(p)
+    return None
+
+
+def _normalize(parts, sep):
+    """merge  Join(sep) + sep + Join(sep)  and  text ending with sep + Join(sep)  shapes into
+    (text piece or None, list of (guard, element)) -- None when the shape is not recognised"""
+    from .sym import FV, fv_apply
+
+    text = None
+    items = []
+    pending_sep = False
+    seen_join = False
+    for p in parts:
+        if isinstance(p, JoinPiece):
+            if p.sep != sep or not _surely_nonempty_join(p):
+                return None
+            if seen_join and not pending_sep:
+                return None
+            items.extend(p.items)
+            seen_join = True
+            pending_sep = False
+        else:
+            if seen_join:
+                if conc(p) and p == sep and not pending_sep:
+                    pending_sep = True
+                    continue
+                return None
+            if conc(p) and p == "":
+                continue
+            if text is None:
+                text = p
+            else:
+                pv1, pv2 = _text_values(text), _text_values(p)
+                if pv1 is None or pv2 is None:
+                    return None
+                text = fv_apply(lambda a, b: a + b, text, p)
+    if pending_sep:
+        return None
+    return text, items
+
+
+def scat_split(s, sep):
+    """list of (guard, part) of s.split(sep), or None"""
+    from .sym import FV, fv_apply
+
+    n = _normalize(_parts(s), sep)
+    if n is None:
+        return None
+    text, items = n
+    for _, e in items:
+        pv = possible_values(e)
+        if pv is None or any(sep in v for v in pv):
+            return None
+    out = []
+    if text is not None:
+        pv = _text_values(text)
+        if pv is None:
+            return None
+        if items:
+            if not all(v.endswith(sep) for v in pv):
+                return None
+            counts = {len(v.split(sep)) for v in pv}
+            if len(counts) != 1:
+                return None
+            k = counts.pop() - 1  # the last (empty) part is taken by the first item
+            for i in range(k):
+                part = fv_apply(lambda x, i=i: x.split(sep)[i], text) if isinstance(text, FV) else text.split(sep)[i]
+                out.append((z3.BoolVal(True), part))
+        else:
+            counts = {len(v.split(sep)) for v in pv}
+            if len(counts) != 1:
+                return None
+            for i in range(counts.pop()):
+                part = fv_apply(lambda x, i=i: x.split(sep)[i], text) if isinstance(text, FV) else text.split(sep)[i]
+                out.append((z3.BoolVal(True), part))
+    out.extend(items)
+    return out
+
+
+def scat_split1(s, sep):
+    """(head, tail) of s.split(sep, 1) when the first piece surely contains sep, else None"""
+    from .sym import FV, fv_apply
+
+    parts = _parts(s)
+    first = parts[0]
+    if isinstance(first, JoinPiece):
+        return None
+    pv = _text_values(first)
+    if pv is None or not all(sep in v for v in pv):
+        return None
+    if isinstance(first, FV):
+        head = fv_apply(lambda x: x.split(sep, 1)[0], first)
+        rest = fv_apply(lambda x: x.split(sep, 1)[1], first)
+    else:
+        head, rest = first.split(sep, 1)
+    if len(parts) == 1:
+        return head, rest
+    pieces = ([] if (conc(rest) and rest == "") else [rest]) + parts[1:]
+    tail = SCat(pieces)
+    return head, tail
